@@ -23,7 +23,7 @@ var (
 	c08Bound  = flag.Int("bound", 2, "preemption bound of the exhaustive part")
 	c08Cap    = flag.Int("cap", 300, "cap on explored schedules per request set")
 	c08Random = flag.Int("random", 40, "random schedules per request set beyond the bound")
-	c08Kinds  = flag.String("kinds", "dup,inbox,like,follow,add,outbox,forward2", "request-set kinds")
+	c08Kinds  = flag.String("kinds", "dup,inbox,like,follow,add,outbox,forward2,add2,likebad", "request-set kinds")
 )
 
 type abortSignal struct{}
@@ -421,6 +421,29 @@ func genReqSet(r *rng, kind string, k int) reqSet {
 				b["object"] = fmt.Sprintf("%s/notes/%d", remote, 10+i)
 			}
 			rs.reqs = append(rs.reqs, outboxScenario("conc:outbox", w, cfg, b))
+		}
+	case "add2": // Adds / Removes naming two owned collections as targets, in opposite orders
+		ty := pick(r, []string{"Add", "Add", "Remove"})
+		for i := 0; i < 2; i++ {
+			a := inboxAct(ty, i, pick(r, remoteActors[:3]))
+			a["object"] = fmt.Sprintf("%s/things/c%d-%d", remote, k, i)
+			cols := []interface{}{local + "/cols/1", local + "/cols/2"}
+			if i == 1 {
+				cols = []interface{}{local + "/cols/2", local + "/cols/1"}
+			}
+			if r.chance(1, 3) {
+				cols = append(cols, cols[0])
+			}
+			a["target"] = cols
+			rs.reqs = append(rs.reqs, inboxScenario("conc:add2", w, cfg, a))
+		}
+	case "likebad": // a client Like that is rejected (embedded object without id), then well-formed ones on the same outbox
+		for i := 0; i < n; i++ {
+			b := jmap{"@context": asCtx, "type": "Like", "actor": alice, "object": fmt.Sprintf("%s/notes/%d", remote, 10+i)}
+			if i == 0 {
+				b["object"] = jmap{"type": "Note", "content": "no id"}
+			}
+			rs.reqs = append(rs.reqs, outboxScenario("conc:likebad", w, cfg, b))
 		}
 	case "forward2": // two forwardable activities naming two owned collections in opposite orders
 		for i := 0; i < 2; i++ {
